@@ -93,9 +93,33 @@ def main():
         kind = case['kind']
         pieces = [bytes.fromhex(p) for p in case['pieces']]
         body = b''.join(pieces)
+        if 'gen' in case:        # large high-ratio bodies are built here, not shipped as hex
+            g = case['gen']
+            payload = b''.join(bytes.fromhex(u) * g['repeat'] for u in g['units'])
+            if g['enc'] == 'gzip':
+                import gzip
+                body = gzip.compress(payload, g['level'], mtime=0)
+            elif g['enc'] == 'zlib':
+                body = zlib.compress(payload, g['level'])
+            else:
+                c = zlib.compressobj(g['level'], zlib.DEFLATED, -15)
+                body = c.compress(payload) + c.flush()
+            body = body[:len(body) - g.get('cut', 0)]
+            cuts = [c % (len(body) + 1) for c in g['cuts']]
+            if g.get('block'):
+                cuts += list(range(g['block'], len(body), g['block']))
+            cuts = sorted(set(c for c in cuts if 0 < c < len(body)))
+            pieces = [body[a:b] for a, b in zip([0] + cuts, cuts + [len(body)])]
         r = {'stream': run_decoder(kind, pieces),
              'oneshot': run_decoder(kind, [body] if body else []),
              'glue': run_stream_glue(kind, pieces)}
+        if 'gen' in case:
+            import hashlib
+            for k in ('stream', 'oneshot', 'glue'):
+                if r[k] is not None:
+                    r[k] = 'sha1:%s:%d' % (hashlib.sha1(bytes.fromhex(r[k])).hexdigest(), len(r[k]) // 2)
+            r['expect'] = 'sha1:%s:%d' % (hashlib.sha1(payload).hexdigest(), len(payload))
+            r['n_pieces'] = len(pieces)
         if case.get('tables'):
             r['tables'] = {k: table(body, w) for k, w in WB.items()}
         r['machine_ok'] = all(machine_sample(body, pieces, w) for w in WB.values())
